@@ -719,6 +719,24 @@ pub fn run(ctx: &mut Ctx, args: &Args) {
     }
     let t0 = ctx.elapsed_s();
     let mut h = harvest(ctx, &entries);
+    // debugging aid: print the default value of every type and the donor pool keys
+    if args.extra.iter().any(|a| a == "--dump-defaults") {
+        for e in entries.iter() {
+            if let Some(f) = e.default_json {
+                println!("DEFAULT {} {}", e.name, f());
+            }
+        }
+        let mut keys: Vec<String> = h.pools.key_names();
+        keys.sort();
+        println!("POOLKEYS {}", keys.join(" "));
+        for (ti, e) in entries.iter().enumerate() {
+            for sd in h.seeds[ti].primary.iter().filter(|s| s.nodes < 400).take(2) {
+                println!("SEEDJSON {} {} {}", e.name, sd.origin, sd.json);
+            }
+            println!("SEEDS {} typed={} primary={} secondary={}", e.name, h.seeds[ti].primary.iter().filter(|s| s.typed).count(), h.seeds[ti].primary.len(), h.seeds[ti].secondary.len());
+        }
+        return;
+    }
     ctx.extra.insert("harvest_s".into(), json!(ctx.elapsed_s() - t0));
     ctx.extra.insert("registered_types".into(), json!(entries.len()));
     ctx.extra.insert("donor_pool_keys".into(), json!(h.pools.keys()));
